@@ -38,6 +38,10 @@ class Spec:
             out.append({"prop": self.prop, "oracle": "%s.crash" % w, "at": k,
                         "msg": "executor process died (signal/exit %s) while running op %s [%s engine]" % (
                             jr.get("signal"), op, engine)})
+        elif jr["end"] == "hang" and engine == "py" and jr.get("confirmed") != "py-linebudget":
+            # the interpreted engine is 10-100x slower; without the deterministic line clock a wall-clock expiry cannot
+            # tell a long op from an endless one, so it is counted, not reported
+            jr["inconclusive"] = True
         elif jr["end"] == "hang":
             k = jr.get("at")
             op = plan["ops"][k]["op"] if k is not None and k < len(plan["ops"]) else "?"
@@ -88,6 +92,8 @@ class Spec:
 
     def stats(self, plan, jrs):
         s = self.judge_world(plan).stats(plan, jrs[0])
+        if any(j.get("inconclusive") for j in jrs):
+            s["interpreted_wallclock_expiries_not_judged"] = 1
         if len(jrs) > 1:
             s["runs_also_in_interpreted_engine"] = 1
             s["line_events_interpreted"] = sum((o or {}).get("lines", 0) for o in jrs[1]["obs"])
@@ -195,6 +201,15 @@ class C06(Spec):
 class C16(Spec):
     warm_runs = 12
     py_line_budget = 0  # a contact_forces op legitimately takes 10^7..10^8 interpreted lines: wall-clock watchdog only
+
+    def wants_py(self, plan):
+        # finely tessellated bodies take minutes per call when interpreted
+        for op in plan["ops"]:
+            if op["op"] == "body" and op["kind"] in ("cylinder", "capsule"):
+                import math
+                if 2 * math.pi * op["params"]["radius"] / op["params"]["hint"] > 24:
+                    return False
+        return super().wants_py(plan)
     rule = ("one run = one seeded history on 2-3 hydroelastic RigidBody objects from the six factories (general "
             "rotations of all bodies): contact_forces / find_contact_surface calls that re-express body 1 in place, "
             "duplicated calls, changing partners, update_pose before the first re-expression, Young's modulus changes; "
@@ -238,13 +253,16 @@ class C20(Spec):
         return self.world.stats(plan, jrs)
 
     def evaluate(self, lane, plan, **kw):
-        kw.setdefault("line_budget", 0)  # mixed worlds: hangs are confirmed by the solo wall-clock replay only
+        budget = {"T": 300000000, "K": 30000000, "R": 100000000, "E": 30000000, "H": 0}.get(plan["world"], 0)
+        kw.setdefault("line_budget", budget)
         ja = lane.run(plan, engine="jit", **kw)
-        jb = lane.run(plan, engine="py", **kw)
+        jb = lane.run(plan, engine="py", **kw)  # no tracing here (10x slower); the line clock only confirms suspects
         vs = []
         for eng, j in (("jit", ja), ("py", jb)):
             if j["end"] == "hang":
                 vs += [dict(v, oracle="X.hang") for v in self.end_violations(plan, j, eng)]
+        if jb.get("inconclusive"):
+            return vs, [ja, jb]  # nothing to compare the compiled journal with
         if not vs:
             try:
                 vs = self.world.compare(plan, ja, jb)
